@@ -552,12 +552,15 @@ func (g *generator) declareDisjunction(v cue.Value, hints ast.JenniesHints, defa
 	defaultAsCueValue, hasDefault := v.Default()
 
 	disjunctionBranches := make([]cue.Value, 0, len(disjunctionBranchesWithPossibleDefault))
-	for _, branch := range disjunctionBranchesWithPossibleDefault {
+	for i, branch := range disjunctionBranchesWithPossibleDefault {
 		if hasDefault && branch.Equals(defaultAsCueValue) {
 			_, bPath := branch.ReferencePath()
 			_, dPath := defaultAsCueValue.ReferencePath()
 
-			if bPath.String() == dPath.String() {
+			// the default is only left out of the branches when it is one of the values
+			// another branch allows (`string | *"abc"`): in `int | *"auto"`, "auto" is a
+			// branch of its own.
+			if bPath.String() == dPath.String() && g.subsumedByAnotherBranch(i, disjunctionBranchesWithPossibleDefault) {
 				continue
 			}
 		}
@@ -582,6 +585,20 @@ func (g *generator) declareDisjunction(v cue.Value, hints ast.JenniesHints, defa
 	}
 
 	return ast.NewDisjunction(branches, ast.Default(defaultValue), ast.Hints(hints)), nil
+}
+
+func (g *generator) subsumedByAnotherBranch(index int, branches []cue.Value) bool {
+	for i, other := range branches {
+		if i == index {
+			continue
+		}
+
+		if other.Subsume(branches[index]) == nil {
+			return true
+		}
+	}
+
+	return false
 }
 
 func (g *generator) declareAnonymousEnum(v cue.Value, defValue any, hints ast.JenniesHints) (ast.Type, error) {
